@@ -135,6 +135,25 @@ def rule_complete(chk):
                     okk, kk = ctx.try_fold(f, x.slice)
                     if okk:
                         hdr_reads.add(kk)
+        # "{task_uuid} ...".format(**message) / .format_map(message): the template's named fields are read from the message
+        import string
+        for r in rets:
+            for x in ast.walk(X.inline(f, r.ast.value)):
+                if isinstance(x, ast.Call) and isinstance(x.func, ast.Attribute) and x.func.attr in ("format", "format_map") \
+                        and isinstance(x.func.value, ast.Constant) and isinstance(x.func.value.value, str):
+                    try:
+                        names = {fld.split(".")[0].split("[")[0] for _t, fld, _s, _c in string.Formatter().parse(x.func.value.value) if fld}
+                    except ValueError:
+                        raise AnalysisError("%s: header template %r does not parse" % (q, x.func.value.value))
+                    explicit = {k.arg for k in x.keywords if k.arg is not None}
+                    splat = [k for k in x.keywords if k.arg is None and isinstance(k.value, ast.Name) and k.value.id == fparam]
+                    if x.func.attr == "format_map" and len(x.args) == 1 and isinstance(x.args[0], ast.Name) and x.args[0].id == fparam:
+                        hdr_reads |= names
+                    if splat:
+                        hdr_reads |= names - explicit
+                        if explicit:
+                            problems.append("the header is built with .format(%s, **%s): a message that has a field named %s makes format() raise TypeError (multiple values for a keyword), "
+                                            "so such a message cannot be rendered at all" % (", ".join("%s=..." % e for e in sorted(explicit)), fparam, " or ".join(repr(e) for e in sorted(explicit))))
         for k in (UU, TL):
             if k not in hdr_reads:
                 problems.append("the header does not show %s" % k)
